@@ -23,7 +23,7 @@ RULE = (
     "save_group_times) x none or 1-4 class groups named from letters, digits, '-', '_', space, '.', ':', '()' and upper "
     "case x 1-6 subjects named from printable text (incl. quotes, comma, semicolon, dash, non-ASCII; the literal name "
     "'subject_name' is drawn with elevated probability) with inputs realising normal and zero-TP rows. The aggregator "
-    "writes the file, make_statistic()/from_file reads it. Oracle (round trip): for every subject, group and key of a "
+    "writes the file, make_statistic()/from_file reads it; in a third of the cases the later subjects are written by a forked worker process or by a second aggregator object on the same file, optionally after an interim statistic; finally the file may be continued by an evaluator declaring the same groups in reverse order (refused, or the new row must read back under its own groups). Oracle (round trip): for every subject, group and key of a "
     "direct evaluate(...)[g][0].to_dict() by an independent evaluator of the same configuration, the loaded value is the "
     "bit-identical float, or None when the value is None/NaN/+-inf or absent; group, metric and subject lists equal. "
     "Non-trivial: >=2 groups, or a name with a special character, or a missing value; distinct = distinct canonical case."
